@@ -4,6 +4,7 @@ from __future__ import annotations
 
 import copy
 
+from hgmon import ref as ref_mod
 from hgmon import core, families, gen, monitors, rt
 from hgmon.build import all_fids
 
@@ -137,6 +138,34 @@ def pause_next_to_failure(ctx, i):
     ctx.case({"pause-next-to-failure": len(inner_nodes), "wrapped": sub["name"]}, True)
 
 
+def _bad_shutdown_classes():
+    from hypergraph.events import AsyncEventProcessor, EventProcessor
+
+    class BadShutdown(EventProcessor):
+        def on_event(self, event):
+            pass
+
+        def shutdown(self):
+            raise OSError("flush failed")
+
+    class ABadShutdown(AsyncEventProcessor):
+        async def on_event_async(self, event):
+            pass
+
+        async def shutdown_async(self):
+            raise OSError("flush failed")
+
+    return BadShutdown, ABadShutdown
+
+
+def _BadShutdown():
+    return _bad_shutdown_classes()[0]()
+
+
+def _ABadShutdown():
+    return _bad_shutdown_classes()[1]()
+
+
 class _NoStr(Exception):
     """A node failure whose exception cannot be turned into text (its __str__ raises)."""
 
@@ -204,8 +233,12 @@ def variants(ctx, fam):
             # a third of the programs are observed by TWO further processors that compare equal to each other
             # (distinct objects): each of them is owed the whole stream and one shutdown
             twins = rng.random() < 0.34
+            # half of the executions have, registered FIRST, a processor whose shutdown fails (a final flush that
+            # raises): the processors after it are still shut down exactly once
+            bad_first = rng.random() < 0.5
+            ctx.obs["failing_shutdown_first_configs"] += int(bad_first)
             for rep in range(runs):
-                procs = [Rec("p")] + ([Rec("q1", eq_group="twins"), Rec("q2", eq_group="twins")] if twins else [])
+                procs = ([_BadShutdown()] if bad_first else []) + [Rec("p")] + ([Rec("q1", eq_group="twins"), Rec("q2", eq_group="twins")] if twins else [])
                 o = core.execute(core.with_async(spec, False), inputs, "sync", processors=procs, cache=cache, **k2)
                 st = check_stream(ctx, o, spec, "p", f"sync{'-rerun' if rep else ''}", c2)
                 if twins:
@@ -215,7 +248,7 @@ def variants(ctx, fam):
                 nstreams += 1
             aspec = core.with_async(spec, True, rng, 0.7)
             for label, sched, mc in (("async-natural", None, None), ("async-sched", rt.Sched(default="rand", rng=rng), None), ("async-k", rt.Sched(default="last"), rng.choice([1, 2]))):
-                procs = [ARec("p", rng, 3)] + ([ARec("q1", rng, 1, eq_group="twins"), ARec("q2", rng, 1, eq_group="twins")] if twins else [])
+                procs = ([_ABadShutdown() if rng.random() < 0.5 else _BadShutdown()] if bad_first else []) + [ARec("p", rng, 3)] + ([ARec("q1", rng, 1, eq_group="twins"), ARec("q2", rng, 1, eq_group="twins")] if twins else [])
                 o = core.execute(aspec, inputs, "async", sched=sched, max_concurrency=mc, processors=procs, cache=cache, **k2)
                 check_stream(ctx, o, spec, "p", label, c2)
                 if twins:
@@ -290,6 +323,20 @@ def map_call(ctx, i, force_n=None):
             o = core.execute(core.with_async(spec, True, rng), inputs, "async", max_concurrency=bad_limit, processors=[ARec("p", rng, 1)], map_over=over, error_handling="raise")
             ctx.obs["invalid_limit_map_calls"] += 1
             check_stream(ctx, o, spec, "p", f"async-map-k{bad_limit}", case)
+    # a map() call rejected for an INTERNAL OVERRIDE under on_internal_override='error' (a value supplied for a name that
+    # a node of the graph produces): like run(), map() raises before anything is delivered
+    produced = [e for ns in spec["nodes"] for e in ref_mod.data_output_names(ns) if e != over]
+    if n > 0 and produced:
+        internal = rng.choice(produced)
+        for runner in ("sync", "async"):
+            o = core.execute(core.with_async(spec, runner == "async", rng), {**inputs, internal: "run:override"}, runner, processors=[(Rec if runner == "sync" else ARec)("p")], map_over=over, error_handling="raise", kwargs_inputs={"on_internal_override": "error"})
+            ctx.obs["internal_override_map_calls"] += 1
+            if o.exc is not None and not any(e[0] == "enter" for e in o.rec.ev):
+                ctx.obs["rejected_calls"] += 1
+                evs = rt.events_of(o.rec, "p")
+                shut = sum(1 for e in o.rec.ev if e[0] == "shutdown" and e[1] == "p")
+                if evs or shut:
+                    ctx.violation("C12:rejected-call-emitted", f"{runner}-map: map() rejected for an internal override ({type(o.exc).__name__}) delivered {len(evs)} events ({[type(e).__name__ for e in evs][:4]}) and {shut} shutdowns", {"family": "runner.map", "spec": spec, "inputs": inputs, "over": over, "internal_override": internal})
     # a map() call that cannot run (a required input is missing, errors are raised): rejected, nothing delivered
     from hgmon import ref
 
